@@ -408,8 +408,33 @@ func genCfg(r *gen.Rand) *cfgSpec {
 	if r.Chance(1, 2) {
 		s.methods = pickSome(r, methPool, 1, 4)
 	}
-	if r.Chance(1, 4) {
-		s.preVary = gen.Pick(r, []string{"Accept-Encoding", "Accept-Encoding, Cookie", "Origin", "origin", "X-Origin", "Accept, X-Origin"})
+	// lists with empty strings in them (what strings.Split("", ",") gives for an empty setting,
+	// or a trailing comma): single "", leading, trailing
+	withEmpty := func(xs []string) []string {
+		switch r.Intn(3) {
+		case 0:
+			return []string{""}
+		case 1:
+			return append([]string{""}, xs...)
+		}
+		return append(append([]string(nil), xs...), "")
+	}
+	if r.Chance(1, 8) {
+		s.allowHeaders = withEmpty(s.allowHeaders)
+	}
+	if r.Chance(1, 12) {
+		s.exposeHeaders = withEmpty(s.exposeHeaders)
+	}
+	if r.Chance(1, 12) {
+		s.methods = withEmpty(s.methods)
+	}
+	if r.Chance(1, 3) {
+		// a Vary list set in front of the middleware: look-alike tokens of `Origin` at the start,
+		// in the middle and at the end, other case, Origin already present
+		s.preVary = gen.Pick(r, []string{"Accept-Encoding", "Accept-Encoding, Cookie", "Origin", "origin", "X-Origin", "Accept, X-Origin",
+			"Origin-Agent-Cluster", "OriginX", "Origin-Agent-Cluster, Accept-Encoding", "OriginX, Cookie", "Accept, Origin-Agent-Cluster, Cookie",
+			"Accept, OriginX", "Accept-Encoding, Origin-Agent-Cluster", "X-Origin, Accept", "Accept-Encoding, Origin", "Origin, Accept-Encoding",
+			"Accept, Origin, Cookie", "ORIGIN", "Accept, origin", "Sec-Origin, Origin-Trial", "Origins"})
 	}
 	return s
 }
@@ -1155,8 +1180,10 @@ func checkResp(e *ev.Env, c *ev.Case, s *cfgSpec, all bool, qi int, q *reqSpec, 
 			stat(e, "preflight_204", 1)
 		}
 		wantM := strings.Join(s.effMethods(), ", ")
-		wantH := ""
-		if !s.noConfig && len(s.allowHeaders) > 0 {
+		// a list is configured when it has elements - also when they are empty strings: then the
+		// answer is that (empty) list, never the request's Access-Control-Request-Headers
+		wantH, haveH := "", !s.noConfig && len(s.allowHeaders) > 0
+		if haveH {
 			wantH = strings.Join(s.allowHeaders, ", ")
 		}
 		wantMA := ""
@@ -1178,7 +1205,7 @@ func checkResp(e *ev.Env, c *ev.Case, s *cfgSpec, all bool, qi int, q *reqSpec, 
 			} else {
 				stat(e, "refused_preflight_with_configured_methods", 1)
 			}
-			if wantH != "" {
+			if haveH {
 				if got := resp.Get(hACAH); got != wantH {
 					e.Violation(c, "preflight-headers-mismatch|refused-origin", "Access-Control-Allow-Headers of a preflight from a refused origin differs from the configured headers", detail(map[string]any{"want": wantH}))
 				} else {
@@ -1196,7 +1223,7 @@ func checkResp(e *ev.Env, c *ev.Case, s *cfgSpec, all bool, qi int, q *reqSpec, 
 		if got := resp.Get(hACAM); got != wantM {
 			e.Violation(c, "preflight-methods-mismatch", "Access-Control-Allow-Methods differs from the configured methods", detail(map[string]any{"want": wantM}))
 		}
-		if wantH != "" {
+		if haveH {
 			if got := resp.Get(hACAH); got != wantH {
 				e.Violation(c, "preflight-headers-mismatch", "Access-Control-Allow-Headers differs from the configured headers", detail(map[string]any{"want": wantH}))
 			}
@@ -1487,6 +1514,9 @@ func run(e *ev.Env) {
 		}
 		judge(e, c, sc)
 	})
+
+	e.Corpus("stacked-instances", func(c *ev.Case) { stacked(e, c, true) })
+	e.Cases("stacked", e.N(200, 5000), func(c *ev.Case) { stacked(e, c, false) })
 
 	// requests that overlap inside the allow function, hand-off by hand-off on one P
 	prevProcs := runtime.GOMAXPROCS(1)
